@@ -265,6 +265,14 @@ def run(ctx):
                           "--minlen", str(blo), "--maxlen", str(bhi), "--out", tp], timeout=1500)
     bsum = json.loads(out)["cases"]
     bcases = [("big_" + cid, evs) for (cid, evs) in _split_cases(C.read_ndjson(tp))]
+    # references with far more than 65536 k-mers per rayon thread-chunk boundary (chunked parallel passes over the sorted
+    # k-mer vector only differ from the sequential pass on such inputs): every tier gets at least two of them
+    nhuge = 2 if quick else 6
+    tp2 = os.path.join(ctx.work, "trace_huge.ndjson")
+    _, out2, _, _ = C.rvh(["trace-splitters", "--big", "--seed", str(ctx.seed), "--ncases", str(nhuge), "--from-case", "1000",
+                           "--minlen", "150000", "--maxlen", "240000", "--out", tp2], timeout=1500)
+    bsum += json.loads(out2)["cases"]
+    bcases += [("big_" + cid, evs) for (cid, evs) in _split_cases(C.read_ndjson(tp2))]
     acc, rej = _validate(ctx, "big", bcases, 1, "big")
     ctx.traces += acc
     ctx.evaluations += sum(s["calls"] for s in bsum)
